@@ -21,9 +21,16 @@ External calls are parameters (`Ext`): `Timestamp::parse` ∘ `fmt_timestamp` (p
 Tracks /repo at c575458 (integers: `parse_integer`, since 7ec6a52; text: CR written as `&#13;`, since 7fbc5bc;
 character data = all text pieces and CDATA sections of the element, since c575458; character data outside the
 document element is refused by `read_event`, which keeps the nesting depth, since d51737b; `Deserializer::text`
-normalises the line ends of every text piece and CDATA section before references are resolved, since d365e05).
+normalises the line ends of every text piece and CDATA section before references are resolved, since d365e05;
+attributes: `SerializeContent::attributes` / `start_of` / `attr_value` of `xml/ser.rs`, `Deserializer::attribute` of
+`xml/de.rs` over quick-xml's attribute iterator, since 1dc4ea8).
 The lookahead state `peeked` / `next_slot` of `Deserializer` is the head of the remaining event list here:
 `peek_event` = look at the head, `consume_peeked` / `next_event` = drop it; `Empty` is expanded by `deEvents`.
+The field `start` of `Deserializer` (the start tag that was entered last, since 1dc4ea8) is read by generated code only
+in the `let` block at the top of `deserialize_content` (the translator refuses any other place), i.e. before any further
+event is consumed: it is the start tag whose consumption made the caller hand over the content. So the raw bytes after
+its element name are an explicit argument here: `expectStart` returns them, `forEach` and the union dispatch pass
+them to their callback, `decode` takes them.
 -/
 
 namespace S3V.Xml
@@ -39,8 +46,9 @@ inductive DeErr where
 /-- what `Deserializer::read_event` hands out (`DeEvent`), plus `bad e` = `read_event` returned the error `e` at
 this point: `DeError::InvalidXml` when the tokeniser failed, `DeError::InvalidContent` for character data outside
 the document element (since d51737b). End of list = `DeEvent::Eof` (quick-xml keeps answering `Eof`).
-`rest` of a start tag = the raw bytes after the element name (attributes), which the deserialiser never looks at
-and the serialiser uses for ` xmlns="…"`. -/
+`rest` of a start tag = the raw bytes after the element name: the attributes, which the deserialiser looks at only
+through `Deserializer::attribute` (`attrValue` below) and the serialiser uses for ` xmlns="…"` and for
+`SerializeContent::attributes`. -/
 inductive Ev where
   | start (name rest : Bytes)
   | stop (name : Bytes)
@@ -169,6 +177,95 @@ mutual
       else unescapeEnt (c :: acc) cs
 end
 
+/-! ## bytes -/
+
+/-- quick-xml `is_whitespace`: blank, carriage return, line feed, tab -/
+def isWs (b : UInt8) : Bool := b = 32 || b = 13 || b = 10 || b = 9
+
+/-- split at the first byte equal to `c`: (before, after) or `none` -/
+def splitAtByte (c : UInt8) : Bytes → Option (Bytes × Bytes)
+  | [] => none
+  | b :: bs => if b = c then some ([], bs) else (splitAtByte c bs).map fun (p, r) => (b :: p, r)
+
+def startsWith (p : Bytes) (b : Bytes) : Bool := b.take p.length == p
+
+/-! ## attribute values as the serialiser writes them (`xml/ser.rs::attr_value`, since 1dc4ea8) -/
+
+/-- `str::replace(c, ref)` for an ASCII character `c` -/
+def replaceRef (c : UInt8) (ref : Bytes) : Bytes → Bytes
+  | [] => []
+  | b :: bs => (if b = c then ref else [b]) ++ replaceRef c ref bs
+
+def tabRef : Bytes := [38, 35, 57, 59]        -- &#9;
+def lfRef : Bytes := [38, 35, 49, 48, 59]     -- &#10;
+
+/-- `xml/ser.rs::attr_value`: quick-xml's `escape`, then `.replace('\t', "&#9;").replace('\n', "&#10;")
+.replace('\r', "&#13;")` (the `contains` test in front only avoids the copies: without a hit the replacements are the
+identity). A literal tab, LF or CR of an attribute value is read as a space by every XML reader (XML 1.0 §3.3.3). -/
+def escapeAttr (t : Bytes) : Bytes := replaceCr (replaceRef 10 lfRef (replaceRef 9 tabRef (escape t)))
+
+/-- ` key="value"`: `BytesStart::push_attribute` with a raw value -/
+def attrSeg (key value : Bytes) : Bytes := 32 :: key ++ [61, 34] ++ value ++ [34]
+
+/-- `xsi:` -/
+def xsiPrefix : Bytes := [120, 115, 105, 58]
+/-- `xmlns:xsi` -/
+def xmlnsXsiKey : Bytes := [120, 109, 108, 110, 115, 58, 120, 115, 105]
+/-- `XMLNS_XSI` of `xml/generated.rs`: `http://www.w3.org/2001/XMLSchema-instance` -/
+def xmlnsXsi : Bytes :=
+  [104, 116, 116, 112, 58, 47, 47, 119, 119, 119, 46, 119, 51, 46, 111, 114, 103, 47, 50, 48, 48, 49, 47, 88, 77, 76,
+   83, 99, 104, 101, 109, 97, 45, 105, 110, 115, 116, 97, 110, 99, 101]
+
+/-- the namespace declaration a generated `fn attributes` lists in front of an attribute: `("xmlns:xsi", XMLNS_XSI)`
+for a name with the prefix `xsi:`, nothing for a name without prefix (`codegen/src/v1/xml.rs`; the translator refuses
+every other prefix and a second prefixed attribute in one struct). As (key, raw value) pairs. -/
+def nsDeclFor (tag : Bytes) : List (Bytes × Bytes) :=
+  if startsWith xsiPrefix tag then [(xmlnsXsiKey, escapeAttr xmlnsXsi)] else []
+
+/-! ## attributes as the deserialiser reads them (`Deserializer::attribute`, since 1dc4ea8) -/
+
+/-- one step of quick-xml's attribute iterator (`events/attributes.rs::IterState::next`; duplicate checks off, not
+HTML — the way `BytesStart::try_get_attribute` runs it) over the bytes that follow the element name.
+`none` = no further attribute; `some none` = an `AttrError` (`ExpectedEq`, `ExpectedValue`, `UnquotedValue`,
+`ExpectedQuote`); `some (some (key, value, rest))` = an attribute and what follows its closing quote.
+The key starts at the first byte that is not white space (whatever it is) and runs up to the next `=` or white
+space; white space may surround the `=`; the value is quoted by `"` or `'`. -/
+def attrNext (b : Bytes) : Option (Option (Bytes × Bytes × Bytes)) :=
+  match b.dropWhile isWs with
+  | [] => none
+  | c0 :: t =>
+    let keyTail := t.takeWhile fun c => !(c = 61 || isWs c)
+    match t.drop keyTail.length with
+    | [] => some none                                        -- `key` at the end: ExpectedEq
+    | c :: r =>
+      let afterEq : Option Bytes :=
+        if c = 61 then some r
+        else
+          match r.dropWhile isWs with
+          | 61 :: r' => some r'
+          | _ => none                                        -- `key x` / `key ` at the end: ExpectedEq
+      match afterEq with
+      | none => some none
+      | some v =>
+        match v.dropWhile isWs with
+        | [] => some none                                    -- ExpectedValue
+        | q :: v' =>
+          if q = cQuot || q = cApos then
+            match splitAtByte q v' with
+            | none => some none                              -- ExpectedQuote
+            | some (val, rest) => some (some (c0 :: keyTail, val, rest))
+          else some none                                     -- UnquotedValue
+
+/-- `BytesStart::try_get_attribute(name)`: the raw value of the first attribute with that key; an `AttrError` met on
+the way is `DeError::InvalidXml`. Every step consumes at least one byte: `fuel = length + 1` is never exhausted. -/
+def attrFind (name : Bytes) : Nat → Bytes → Except DeErr (Option Bytes)
+  | 0, _ => .ok none
+  | fuel + 1, b =>
+    match attrNext b with
+    | none => .ok none
+    | some none => .error .invalidXml
+    | some (some (key, val, rest)) => if key = name then .ok (some val) else attrFind name fuel rest
+
 /-! ## scalar text forms (`utils/format.rs`, `xml/de.rs::parse_integer`) -/
 
 def fmtInt (i : Int) : Bytes :=
@@ -218,10 +315,11 @@ def skipText : List Ev → List Ev
   | .cdata _ :: r => skipText r
   | r => r
 
-/-- `Deserializer::expect_start` -/
-def expectStart (name : Bytes) (evs : List Ev) : Except DeErr (List Ev) :=
+/-- `Deserializer::expect_start`; also hands out the attribute bytes of the start tag it consumed
+(`self.start = Some(x)`) -/
+def expectStart (name : Bytes) (evs : List Ev) : Except DeErr (Bytes × List Ev) :=
   match skipText evs with
-  | .start n _ :: r => if n = name then .ok r else .error .unexpectedTagName
+  | .start n a :: r => if n = name then .ok (a, r) else .error .unexpectedTagName
   | .stop _ :: _ => .error .unexpectedEnd
   | .bad e :: _ => .error e
   | .text _ :: _ => .error .invalidXml -- unreachable: `skipText` never stops at a text
@@ -281,6 +379,25 @@ def normText (x : Bytes) : Bytes :=
     if utf8Valid x then normLineEnds x else x
   else x
 
+/-- attribute-value normalisation (XML 1.0 §3.3.3) as `Deserializer::attribute` does it on the raw value:
+`normalize_line_ends(raw).replace(['\t', '\n'], " ")` — after the line ends, every literal tab and LF is a space
+(a literal CR is gone by then); characters written as references are not touched -/
+def attrNormalize (raw : Bytes) : Bytes := (normLineEnds raw).map fun c => if c = 9 || c = 10 then 32 else c
+
+/-- `Deserializer::attribute(name)` on the start tag whose bytes after the element name are `a`:
+`try_get_attribute` (`AttrError` ⇒ `InvalidXml`), `str::from_utf8` (⇒ `InvalidContent`), normalisation, then
+quick-xml's `unescape` (`EscapeError` ⇒ `InvalidXml`). `ok none` = no such attribute. -/
+def attrValue (name a : Bytes) : Except DeErr (Option Bytes) :=
+  match attrFind name (a.length + 1) a with
+  | .error e => .error e
+  | .ok none => .ok none
+  | .ok (some raw) =>
+    if utf8Valid raw then
+      match unescape (attrNormalize raw) with
+      | some s => .ok (some s)
+      | none => .error .invalidXml
+    else .error .invalidContent
+
 /-- `Deserializer::joined_text`: the joined buffer, with the first text piece (if still held in `single`) unescaped
 into it -/
 def joinedText (single joined : Option Bytes) : Except DeErr Bytes :=
@@ -325,14 +442,15 @@ def textLoop : Option Bytes → Option Bytes → List Ev → R Bytes
 /-- `Deserializer::text`: the (escaped) character data at the cursor, handed to the scalar parser -/
 def textOf (evs : List Ev) : R Bytes := textLoop none none evs
 
-/-- `Deserializer::for_each_element`, the callback `f d name` threading an accumulator. One iteration consumes at
+/-- `Deserializer::for_each_element`, the callback `f d name` threading an accumulator; `f name a evs acc`: `a` =
+the attribute bytes of the start tag just consumed (`self.start`, see the header). One iteration consumes at
 least the start event, so `fuel = number of events + 1` is never exhausted. -/
-def forEach {α : Type} (f : Bytes → List Ev → α → R α) : Nat → List Ev → α → R α
+def forEach {α : Type} (f : Bytes → Bytes → List Ev → α → R α) : Nat → List Ev → α → R α
   | 0, _, _ => .error .invalidXml -- unreachable with fuel ≥ length
   | fuel + 1, evs, acc =>
     match skipText evs with
-    | .start n _ :: r =>
-      match f n r acc with
+    | .start n a :: r =>
+      match f n a r acc with
       | .error e => .error e
       | .ok (acc', r') =>
         match expectEnd n r' with
@@ -361,6 +479,26 @@ def textEv (b : Bytes) : List Ev := if b = [] then [] else [.text b]
 /-- `Serializer::element(name, f)` -/
 def elem (tag : Bytes) (inner : List Ev) : List Ev := .start tag [] :: inner ++ [.stop tag]
 
+/-- the (key, raw value) pairs a generated `fn attributes(&self)` lists, as `start_of` writes them (`attr_value`):
+for every member bound to an attribute, in member order, the declaration of its prefix (if it has one) and the
+attribute itself. An absent optional attribute writes nothing (codegen has no such member today). -/
+def attrPairs : Flds → List FVal → List (Bytes × Bytes)
+  | .cons tag _ shape _ rest, fv :: fvs =>
+    (match shape, fv with
+      | .attr, .one (.str b) => nsDeclFor tag ++ [(tag, escapeAttr b)]
+      | _, _ => [])
+    ++ attrPairs rest fvs
+  | _, _ => []
+
+/-- the attribute bytes `start_of(name, _, val)` puts into the start tag for `val.attributes()`; only a generated
+struct overrides the empty default of the trait -/
+def encAttrs : Sch → Val → Bytes
+  | .struct fs, .struct vs => (attrPairs fs vs).flatMap fun kv => attrSeg kv.1 kv.2
+  | _, _ => []
+
+/-- `Serializer::content(name, val)`: `start_of(name, None, val)`, the content, the end tag -/
+def elemA (tag attrs : Bytes) (inner : List Ev) : List Ev := .start tag attrs :: inner ++ [.stop tag]
+
 mutual
   /-- `val.serialize_content(s)` at schema `s`. A text event with empty content writes no byte, so it is not
   emitted here (the only difference to the event sequence the Rust code hands to the writer). -/
@@ -372,19 +510,21 @@ mutual
     | .struct fs, .struct vs => encodeFields fs vs
     | .union vs, .union tag v => encodeVariant vs tag v
     | _, _ => []
-  /-- the statement list of a generated `impl SerializeContent for <struct>` -/
+  /-- the statement list of a generated `impl SerializeContent for <struct>`; a member bound to an attribute has no
+  statement here (it is listed by `fn attributes`, `attrPairs`) -/
   def encodeFields : Flds → List FVal → List Ev
     | .cons tag _ shape s rest, fv :: fvs =>
       (match shape, fv with
-        | .single, .one v => elem tag (encode s v)                                   -- `s.content(tag, val)`
-        | .wrapped m, .many vs => elem tag (vs.flatMap fun v => elem m (encode s v)) -- `s.list(tag, m, iter)`
-        | .flat, .many vs => vs.flatMap fun v => elem tag (encode s v)               -- `s.flattened_list(tag, iter)`
-        | _, _ => [])                                                                -- `None`
+        | .single, .one v => elemA tag (encAttrs s v) (encode s v)                   -- `s.content(tag, val)`
+        | .wrapped m, .many vs =>                                                    -- `s.list(tag, m, iter)`
+          elem tag (vs.flatMap fun v => elemA m (encAttrs s v) (encode s v))
+        | .flat, .many vs => vs.flatMap fun v => elemA tag (encAttrs s v) (encode s v) -- `s.flattened_list(tag, iter)`
+        | _, _ => [])                                                                -- `None` / attribute
       ++ encodeFields rest fvs
     | _, _ => []
   /-- `match self { Self::V(x) => s.content("V", x), … }` -/
   def encodeVariant : Vars → Bytes → Val → List Ev
-    | .cons t s rest, tag, v => if t = tag then elem t (encode s v) else encodeVariant rest tag v
+    | .cons t s rest, tag, v => if t = tag then elemA t (encAttrs s v) (encode s v) else encodeVariant rest tag v
     | .nil, _, _ => []
 end
 
@@ -401,10 +541,25 @@ def Lit.toVal : Lit → Val
   | .int i => .int i
   | .bool b => .bool b
 
-/-- the `let mut x: Option<T> = None;` block -/
-def Flds.emptyAcc : Flds → List FVal
-  | .nil => []
-  | .cons _ _ _ _ rest => .absent :: rest.emptyAcc
+/-- the `let` block at the top of a generated struct deserialiser, on the start tag with attribute bytes `a`:
+`let mut x: Option<T> = None;` for a member read from child elements, and
+`let x: Option<T> = d.attribute("tag")?.map(T::from);` for a member bound to an attribute (since 1dc4ea8), in member
+order (the first failing `?` decides the error) -/
+def Flds.initAcc (a : Bytes) : Flds → Except DeErr (List FVal)
+  | .nil => .ok []
+  | .cons tag _ shape _ rest =>
+    match shape with
+    | .attr =>
+      match attrValue tag a with
+      | .error e => .error e
+      | .ok o =>
+        match rest.initAcc a with
+        | .error e => .error e
+        | .ok tl => .ok ((match o with | some v => FVal.one (.str v) | none => FVal.absent) :: tl)
+    | _ =>
+      match rest.initAcc a with
+      | .error e => .error e
+      | .ok tl => .ok (.absent :: tl)
 
 /-- the `Ok(Self { … })` expression: `x` / `x.ok_or(DeError::MissingField)?` / `x.unwrap_or(lit)` -/
 def Flds.finish : Flds → List FVal → Except DeErr (List FVal)
@@ -423,9 +578,10 @@ def Flds.isNil : Flds → Bool
   | _ => false
 
 /-- the callback of `Deserializer::list_content(m)`: every child must be named `m`; its content is pushed -/
-def listItem (dec : List Ev → R Val) (m : Bytes) (name : Bytes) (evs : List Ev) (l : List Val) : R (List Val) :=
+def listItem (dec : Bytes → List Ev → R Val) (m : Bytes) (name a : Bytes) (evs : List Ev) (l : List Val) :
+    R (List Val) :=
   if name = m then
-    match dec evs with
+    match dec a evs with
     | .error e => .error e
     | .ok (v, r) => .ok (l ++ [v], r)
   else .error .unexpectedTagName
@@ -435,22 +591,26 @@ def isScalar : Sch → Bool
   | _ => true
 
 mutual
-  /-- `T::deserialize_content(d)` at schema `s` -/
-  def decode (X : Ext) : Sch → List Ev → R Val
-    | .struct fs, evs =>
+  /-- `T::deserialize_content(d)` at schema `s`; `a` = the attribute bytes of the start tag of the element whose
+  content is read (`d.attribute` looks at them; everything but a struct with an attribute member ignores them) -/
+  def decode (X : Ext) : Sch → Bytes → List Ev → R Val
+    | .struct fs, a, evs =>
       if fs.isNil then .ok (.struct [], evs)   -- `Ok(Self {})`: `for_each_element` is not even called
       else
-        match forEach (fun name evs acc => decodeField X fs name evs acc) (evs.length + 1) evs fs.emptyAcc with
+        match fs.initAcc a with
         | .error e => .error e
-        | .ok (acc, rest) =>
-          match fs.finish acc with
+        | .ok acc0 =>
+          match forEach (fun name a evs acc => decodeField X fs name a evs acc) (evs.length + 1) evs acc0 with
           | .error e => .error e
-          | .ok v => .ok (.struct v, rest)
-    | .union vs, evs =>
+          | .ok (acc, rest) =>
+            match fs.finish acc with
+            | .error e => .error e
+            | .ok v => .ok (.struct v, rest)
+    | .union vs, _, evs =>
       -- `d.element(|d, x| match x { … })`
       match skipText evs with
-      | .start n _ :: r =>
-        match decodeVariant X vs n r with
+      | .start n a :: r =>
+        match decodeVariant X vs n a r with
         | .error e => .error e
         | .ok (v, r') =>
           match expectEnd n r' with
@@ -458,7 +618,7 @@ mutual
           | .ok r'' => .ok (v, r'')
       | .bad e :: _ => .error e
       | _ => .error .unexpectedEnd
-    | s, evs =>
+    | s, _, evs =>
       match textOf evs with
       | .error e => .error e
       | .ok (raw, r) =>
@@ -466,10 +626,11 @@ mutual
         | .error e => .error e
         | .ok v => .ok (v, r)
   /-- the `match x { b"Tag" => { … } … _ => Err(UnexpectedTagName) }` of a generated struct deserialiser;
-  `acc` holds the `let mut` variables -/
-  def decodeField (X : Ext) : Flds → Bytes → List Ev → List FVal → R (List FVal)
-    | .nil, _, _, _ => .error .unexpectedTagName
-    | .cons tag _ shape s rest, name, evs, acc =>
+  `acc` holds the `let` variables; `a` = the attribute bytes of the child element `name`. A member bound to an
+  attribute has no arm: an element of its name falls through like any other name. -/
+  def decodeField (X : Ext) : Flds → Bytes → Bytes → List Ev → List FVal → R (List FVal)
+    | .nil, _, _, _, _ => .error .unexpectedTagName
+    | .cons tag _ shape s rest, name, a, evs, acc =>
       match acc with
       | [] => .error .unexpectedTagName -- unreachable: `acc` has one slot per member
       | slot :: accRest =>
@@ -477,34 +638,38 @@ mutual
           match shape with
           | .single =>
             if slot.isAbsent then
-              match decode X s evs with
+              match decode X s a evs with
               | .error e => .error e
               | .ok (v, r) => .ok (.one v :: accRest, r)
             else .error .duplicateField
           | .wrapped m =>
             if slot.isAbsent then
               -- `d.list_content(m)`
-              match forEach (listItem (fun evs => decode X s evs) m) (evs.length + 1) evs [] with
+              match forEach (listItem (fun a evs => decode X s a evs) m) (evs.length + 1) evs [] with
               | .error e => .error e
               | .ok (l, r) => .ok (.many l :: accRest, r)
             else .error .duplicateField
           | .flat =>
-            match decode X s evs with
+            match decode X s a evs with
             | .error e => .error e
             | .ok (v, r) => .ok (slot.push v :: accRest, r)
+          | .attr =>
+            match decodeField X rest name a evs accRest with
+            | .error e => .error e
+            | .ok (acc', r) => .ok (slot :: acc', r)
         else
-          match decodeField X rest name evs accRest with
+          match decodeField X rest name a evs accRest with
           | .error e => .error e
           | .ok (acc', r) => .ok (slot :: acc', r)
   /-- `match x { b"V" => Ok(Self::V(d.content()?)), … _ => Err(UnexpectedTagName) }` -/
-  def decodeVariant (X : Ext) : Vars → Bytes → List Ev → R Val
-    | .nil, _, _ => .error .unexpectedTagName
-    | .cons t s rest, name, evs =>
+  def decodeVariant (X : Ext) : Vars → Bytes → Bytes → List Ev → R Val
+    | .nil, _, _, _ => .error .unexpectedTagName
+    | .cons t s rest, name, a, evs =>
       if name = t then
-        match decode X s evs with
+        match decode X s a evs with
         | .error e => .error e
         | .ok (v, r) => .ok (.union t v, r)
-      else decodeVariant X rest name evs
+      else decodeVariant X rest name a evs
 end
 
 /-! ## documents: `impl Serialize` / `impl Deserialize` + `expect_eof` (`http/de.rs::take_xml_body`) -/
@@ -514,13 +679,14 @@ def nsAttr (ns : Option Bytes) : Bytes :=
   | none => []
   | some uri => [32, 120, 109, 108, 110, 115, 61, 34] ++ escape uri ++ [34] -- ` xmlns="uri"`
 
-/-- `impl Serialize for T`. `location`: the hand-written `GetBucketLocationOutput` (xml/mod.rs): the value is
-`struct [one (str s)]` or `struct [absent]`, written as `<LocationConstraint xmlns=…>s</LocationConstraint>`
-(`None` as the empty string). -/
+/-- `impl Serialize for T`: `s.content[_with_ns](tag, [XMLNS,] self)` = `start_of(tag, xmlns, self)` (the namespace,
+then `self.attributes()`), the content, the end tag. `location`: the hand-written `GetBucketLocationOutput`
+(xml/mod.rs): the value is `struct [one (str s)]` or `struct [absent]`, written as
+`<LocationConstraint xmlns=…>s</LocationConstraint>` (`None` as the empty string; a string has no attributes). -/
 def encodeDoc (root : SerRoot) (s : Sch) (v : Val) : List Ev :=
   match root with
-  | .named tag ns => .start tag (nsAttr ns) :: encode s v ++ [.stop tag]
-  | .nested outer inner ns => .start outer (nsAttr ns) :: elem inner (encode s v) ++ [.stop outer]
+  | .named tag ns => .start tag (nsAttr ns ++ encAttrs s v) :: encode s v ++ [.stop tag]
+  | .nested outer inner ns => .start outer (nsAttr ns) :: elemA inner (encAttrs s v) (encode s v) ++ [.stop outer]
   | .location tag ns =>
     match v with
     | .struct [.one (.str b)] => .start tag (nsAttr ns) :: textEv (escapeText b) ++ [.stop tag]
@@ -529,7 +695,7 @@ def encodeDoc (root : SerRoot) (s : Sch) (v : Val) : List Ev :=
 /-- the callback of the hand-written `impl Deserialize for GetBucketLocationOutput` (xml/mod.rs):
 `if location_constraint.is_some() { DuplicateField }`, `let val = d.content()?`,
 `if !val.as_str().is_empty() { location_constraint = Some(val) }` -/
-def locationItem (tag : Bytes) (name : Bytes) (evs : List Ev) (acc : FVal) : R FVal :=
+def locationItem (tag : Bytes) (name _a : Bytes) (evs : List Ev) (acc : FVal) : R FVal :=
   if name = tag then
     if acc.isAbsent then
       match textOf evs with
@@ -548,8 +714,8 @@ def decodeDoc (X : Ext) (root : DeRoot) (s : Sch) (evs : List Ev) : Except DeErr
     -- `d.named_element(tag, Deserializer::content)`
     match expectStart tag evs with
     | .error e => .error e
-    | .ok r =>
-      match decode X s r with
+    | .ok (a, r) =>
+      match decode X s a r with
       | .error e => .error e
       | .ok (v, r') =>
         match expectEnd tag r' with
@@ -558,11 +724,11 @@ def decodeDoc (X : Ext) (root : DeRoot) (s : Sch) (evs : List Ev) : Except DeErr
   | .nested outer inner =>
     match expectStart outer evs with
     | .error e => .error e
-    | .ok r0 =>
+    | .ok (_, r0) =>
       match expectStart inner r0 with
       | .error e => .error e
-      | .ok r =>
-        match decode X s r with
+      | .ok (a, r) =>
+        match decode X s a r with
         | .error e => .error e
         | .ok (v, r') =>
           match expectEnd inner r' with
@@ -611,13 +777,6 @@ inductive QEv where
   | err
   deriving DecidableEq, Repr
 
-def isWs (b : UInt8) : Bool := b = 32 || b = 13 || b = 10 || b = 9
-
-/-- split at the first byte equal to `c`: (before, after) or `none` -/
-def splitAtByte (c : UInt8) : Bytes → Option (Bytes × Bytes)
-  | [] => none
-  | b :: bs => if b = c then some ([], bs) else (splitAtByte c bs).map fun (p, r) => (b :: p, r)
-
 /-- `ElementParser::feed`: position of the first `>` outside quotes; returns (content before it, rest after it) -/
 def elementEnd : (q : Nat) → Bytes → Option (Bytes × Bytes)
   | _, [] => none
@@ -647,8 +806,6 @@ def doctypeEnd : (balance : Nat) → (seenRev : Bytes) → Bytes → Option (Byt
     else if b = cGt then
       if bal = 0 then some (seen.reverse, bs) else doctypeEnd (bal - 1) (b :: seen) bs
     else doctypeEnd bal (b :: seen) bs
-
-def startsWith (p : Bytes) (b : Bytes) : Bool := b.take p.length == p
 
 def toLowerAscii (b : UInt8) : UInt8 := if 65 ≤ b.toNat ∧ b.toNat ≤ 90 then b + 32 else b
 
